@@ -63,6 +63,10 @@ pub struct SearchSpec {
     pub closure: Closure,
     /// Filter closures reject an edge when bit (value mod 16) of the mask is set.
     pub mask: u16,
+    /// the closure also asks both endpoints of the edge it is handed for a degree (in the sync
+    /// flavours: takes their read locks, from inside the traversal)
+    #[serde(default)]
+    pub query: bool,
 }
 
 impl SearchSpec {
